@@ -170,6 +170,7 @@ type Model struct {
 	OpenQ     int // open queries
 	Open      map[int]*mOpenQuery
 	NextVal   int64
+	Extra     int // component types registered after the universe (op "register")
 }
 
 // NewModel creates an empty model.
